@@ -50,6 +50,9 @@ fn check(loc: &str, outcome: u8) -> Option<String> {
         }
     }
     if std::fs::read(&canary).ok() != Some(b"canary".to_vec()) { return Some("canary file outside the destination was modified or removed".to_string()); }
+    // "deletes files only inside the destination directory": the directory itself and its parents are not inside it
+    if !dest.is_dir() { return Some("the destination directory itself was deleted".to_string()); }
+    if !root.join("sub").is_dir() { return Some("the parent of the destination directory was deleted".to_string()); }
     let _ = sibling;
     None
 }
